@@ -267,6 +267,11 @@ func Inline(mods []*Mod) ([]*Mod, []AugNote, error) {
 				c := Clone(ak)
 				inherit(c, a.When, a.IfFeatures, a.Status)
 				markDefMod([]*Node{c}, m.Name)
+				if m.BelongsTo != "" {
+					markNsMod([]*Node{c}, m.BelongsTo)
+				} else {
+					markNsMod([]*Node{c}, m.Name)
+				}
 				t.Kids = append(t.Kids, c)
 				if tm != m && !(m.BelongsTo != "" && tm.Name == m.BelongsTo) {
 					in.notes = append(in.notes, AugNote{Path: "/" + strings.Join(names, "/") + "/" + c.Name, Module: m.Name})
@@ -287,5 +292,14 @@ func markDefMod(kids []*Node, mod string) {
 			k.DefMod = mod
 		}
 		markDefMod(k.Kids, mod)
+	}
+}
+
+func markNsMod(kids []*Node, mod string) {
+	for _, k := range kids {
+		if k.NsMod == "" {
+			k.NsMod = mod
+		}
+		markNsMod(k.Kids, mod)
 	}
 }
